@@ -81,3 +81,6 @@ def run(ctx):
             ctx.sample({"program": res["text"], "calls": str(res["sets"][0]["runs"][0]["calls"])[:400]})
             break
     ctx.obligation("observation:termination, dense ids, classes do not grow", not ctx.violations, "%d runs" % n)
+    # lockstep with the engine model incl. iteration counts and count <= iter_bound (Tie_close_terminates, Tie_iter_boundN)
+    import engine_tie
+    engine_tie.engine_tie(ctx, results, "C06", nprog=8 if quick else None, nhist=4 if quick else None, nmerge=0 if quick else None)
